@@ -147,7 +147,7 @@ def rand_dfa_with_dead(rng, alphabet=None, nlive=None, ndead=None, partial=None)
                 final_states=finals, allow_partial=partial)
 
 
-def rand_nfa_eps_rich(rng, nmax=6, alphabet=None):
+def rand_nfa_eps_rich(rng, nmax=6, alphabet=None, long=False):
     """NFA whose empty-string edges form long cycles, chains, diamonds and chords (closure
     computations that share or memoise partial results go wrong on exactly these), with sparse
     symbol edges so that the closure decides acceptance."""
@@ -158,7 +158,9 @@ def rand_nfa_eps_rich(rng, nmax=6, alphabet=None):
     rng.shuffle(order)
     eps = {q: set() for q in names}
     shape = rng.choice(["ring", "ring", "chain", "two_rings", "diamond"])
-    k = rng.randint(3, n)
+    k = n if long else rng.randint(3, n)
+    if long:
+        shape = rng.choice(["ring", "chain"])
     if shape == "ring":
         for i in range(k):
             eps[order[i]].add(order[(i + 1) % k])
@@ -197,3 +199,48 @@ def rand_nfa_eps_rich(rng, nmax=6, alphabet=None):
     trans.setdefault(init, {})
     return dict(states=set(names), input_symbols=set(sigma), transitions=trans,
                 initial_state=init, final_states=finals)
+
+
+def lasso_nfa_def(rng, sigma, tail=None, period=None, unroll=1, extra_nondet=False):
+    """Tail of length t into a cycle of length p*unroll on the first symbol (other symbols, if any,
+    follow the same skeleton with probability 1/2): ultimately periodic languages. Pairs of lassos with
+    periods such as 2 vs 3, or p vs its unrolling, stress union-find based equivalence checks."""
+    t = rng.randint(0, 3) if tail is None else tail
+    p = rng.randint(1, 5) if period is None else period
+    n = t + p * unroll
+    fin_tail = [rng.random() < 0.4 for _ in range(t)]
+    fin_cyc = [rng.random() < 0.5 for _ in range(p)]
+    trans = {}
+    for i in range(n):
+        nxt = i + 1 if i + 1 < n else t
+        row = {sigma[0]: {nxt}}
+        for a in sigma[1:]:
+            if rng.random() < 0.5:
+                row[a] = {nxt}
+        if extra_nondet and rng.random() < 0.3:
+            row[sigma[0]] = {nxt, rng.randrange(n)} if rng.random() < 0.5 else {nxt}
+        trans[i] = row
+    finals = {i for i in range(t) if fin_tail[i]} | {t + j for j in range(p * unroll) if fin_cyc[j % p]}
+    return dict(states=set(range(n)), input_symbols=set(sigma), transitions=trans, initial_state=0,
+                final_states=finals), (t, p, fin_tail, fin_cyc)
+
+
+def lasso_pair(rng, sigma):
+    """(A, B, tag): same skeleton with different unrolling (equivalent), or one cycle flag changed, or
+    independent lassos (period 2 vs 3 etc.)."""
+    t, p = rng.randint(0, 3), rng.randint(1, 4)
+    st = rng.getstate()
+    a, _ = lasso_nfa_def(rng, sigma, t, p, 1)
+    r = rng.random()
+    if r < 0.4:
+        rng.setstate(st)
+        b, _ = lasso_nfa_def(rng, sigma, t, p, rng.choice([2, 3]))
+        return a, b, "lasso_unrolled"
+    if r < 0.7:
+        rng.setstate(st)
+        b, _ = lasso_nfa_def(rng, sigma, t, p, rng.choice([1, 2]))
+        q = rng.choice(sorted(b["states"]))
+        b["final_states"] = set(b["final_states"]) ^ {q}
+        return a, b, "lasso_one_flag"
+    b, _ = lasso_nfa_def(rng, sigma)
+    return a, b, "lasso_independent"
